@@ -16,6 +16,7 @@ pub struct Twin;
 pub fn case_of(profile: &str, seed: u64) -> serde_json::Value {
     match profile {
         "save" => serde_json::to_value(crate::savesim::gen_case(seed)).unwrap(),
+        "faults" => serde_json::to_value(crate::wrun::generate_and_run("faults", seed).0).unwrap(),
         _ => serde_json::to_value(crate::wrun::generate_and_run("single", seed).0).unwrap(),
     }
 }
@@ -34,6 +35,24 @@ pub fn transcript(profile: &str, seed: u64) -> (u64, Option<Viol>, BTreeMap<Stri
             c.insert("ops".to_string(), o.stats.ops);
             c.insert("serialisations_in_transcript".to_string(), o.stats.saves_ok);
             (t.0, o.violation, c)
+        }
+        "faults" => {
+            // the whole fault enumeration of one history: what an earlier world did under a caught
+            // destructor panic must not leak into a later world
+            use crate::engine::Engine;
+            let rep = crate::wengine::WorldSim.run_seed("faults", seed, "C20", false);
+            let mut t = crate::rng::TraceHash(rep.trace_hash);
+            if let Some(v) = &rep.violation {
+                t.add_str(&v.oracle);
+                t.add_str(&v.detail);
+            }
+            let mut c = BTreeMap::new();
+            c.insert("ops".to_string(), rep.counters.get("ops").copied().unwrap_or(0));
+            c.insert(
+                "fault.destructor_panic.fired".to_string(),
+                rep.counters.get("fault.destructor_panic.fired").copied().unwrap_or(0),
+            );
+            (t.0, rep.violation, c)
         }
         _ => {
             let (_case, out) = crate::wrun::generate_and_run("single", seed);
@@ -57,6 +76,8 @@ pub fn transcript(profile: &str, seed: u64) -> (u64, Option<Viol>, BTreeMap<Stri
 
 fn twin(profile: &str, seed: u64, want_case: bool) -> Report {
     let (t1, v1, mut counters) = transcript(profile, seed);
+    // (in crash-probe mode the engines underneath announce the operation in progress; a crash
+    // anywhere is also a determinism matter only if it is not reproducible, which the runner sees)
     // unrelated heap traffic: shifts addresses and advances per-instance hasher keys
     let mut r = Rng::new(mix(&[seed, 0x7717]));
     let mut junk: Vec<Vec<u8>> = vec![];
